@@ -81,6 +81,15 @@ def classify_error(e):
 def run_case(case, text):
     A = [[qgen.cell_to_py(c) for c in r] for r in case['A']]
     B = None if case.get('B') is None else [[qgen.cell_to_py(c) for c in r] for r in case['B']]
+    if case.get('share_rows'):
+        # a table is a list of row OBJECTS: value-equal rows become one shared object (and the join table the input table itself when equal)
+        for i in range(len(A)):
+            for j in range(i):
+                if A[i] == A[j]:
+                    A[i] = A[j]
+                    break
+        if B is not None and B == A:
+            B = A
     it = CountingIterator(A, case.get('header_a'))
     w = RecordingWriter(case['q'].get('refuse'))
     warnings = []
